@@ -30,12 +30,21 @@ type rsFineVariant struct {
 	// LateRelease (Kind 0): the held task stays inside OnError until the next connection is established and the
 	// After requests were submitted: nothing younger may run before the held request has finished
 	LateRelease bool
-	Faults      []rsFault
+	Pre         []rsOp // (Kind 0) requests carried out on connection 0 before anything else
+	// HeldLive (Kind 0, LateRelease): connection 0 is NOT cut before the held request; the held request's
+	// acknowledgement is withheld (fault on connection 0) with a ResponseTimeout configured, its task is pinned in
+	// OnError while reporting the timeout, and the PEER then cuts connection 0 (the model's task has closed it)
+	HeldLive bool
+	// Flap (Kind 0, LateRelease): the connection established while the task is held loses the session (a
+	// re-subscription is queued), is cut at once, and the next one keeps the session
+	Flap   bool
+	Faults []rsFault
 }
 
 func (v *rsFineVariant) describe() map[string]interface{} {
 	return map[string]interface{}{"held_in_OnError": rsDescOps([]rsOp{v.Held}), "while_held": rsDescOps(v.Before),
-		"between_SetClient_and_init": rsDescOps(v.Between), "after_release_before_CONNACK": rsDescOps(v.After), "held_until_next_connection_is_up": v.LateRelease, "note": v.Note}
+		"between_SetClient_and_init": rsDescOps(v.Between), "after_release_before_CONNACK": rsDescOps(v.After), "held_until_next_connection_is_up": v.LateRelease, "carried_out_first_on_connection_0": rsDescOps(v.Pre),
+		"network_flaps_while_held": v.Flap, "held_request_timed_out_on_live_connection": v.HeldLive, "note": v.Note}
 }
 
 // rsRunFine: connection 0 is accepted and then cut while idle; Held is submitted (its task fails on the
@@ -75,9 +84,15 @@ func rsRunFine(v *rsFineVariant) (rsObs, string) {
 	inErr := make(chan struct{}, 4)
 	goErr := make(chan struct{})
 	rc := &mqtt.RetryClient{}
+	if v.HeldLive {
+		rc.ResponseTimeout = 150 * time.Millisecond
+	}
 	rc.OnError = func(err error) {
 		cls := "EConn"
-		if errors.Is(err, mqtt.ErrNotConnected) {
+		var rte *mqtt.RequestTimeoutError
+		if errors.As(err, &rte) {
+			cls = "ETimeout"
+		} else if errors.Is(err, mqtt.ErrNotConnected) {
 			cls = "ENotConnected"
 		}
 		mu.Lock()
@@ -316,12 +331,21 @@ func rsRunFine(v *rsFineVariant) (rsObs, string) {
 		}
 		lab("LObserve 1%nat")
 		lab("LTask") // Retry on an empty queue
-		// idle cut
+		for _, op := range v.Pre {
+			submit(op)
+			if !barrier("conn 0 pre") {
+				return
+			}
+			lab("LTask")
+		}
 		b.mu.Lock()
 		c0 := b.conns[0]
 		b.mu.Unlock()
-		c0.cut()
-		lab("LIdleCut")
+		if !v.HeldLive {
+			// idle cut
+			c0.cut()
+			lab("LIdleCut")
+		}
 		// the held task
 		mu.Lock()
 		holdErr = true
@@ -331,6 +355,9 @@ func rsRunFine(v *rsFineVariant) (rsObs, string) {
 			return
 		}
 		lab("LTask")
+		if v.HeldLive {
+			c0.cut() // the peer gives the connection up while the client is still reporting the timeout
+		}
 		for _, op := range v.Before {
 			submit(op)
 		}
@@ -341,18 +368,52 @@ func rsRunFine(v *rsFineVariant) (rsObs, string) {
 		lab("LDetectEnd")
 		lab("LBackoff")
 		if v.LateRelease {
+			loopTasks := 2 // Retry on connection 0, Retry on connection 1
+			gen := 2
 			dialGo <- struct{}{}
 			lab("LDial true")
 			lab("LSetClient")
 			lab("LConnBegin")
-			if !connectAccept(true, "conn 1") {
+			if !connectAccept(!v.Flap, "conn 1") {
 				return
 			}
-			lab("LConnEnd (CoAccept true)")
+			if v.Flap {
+				lab("LConnEnd (CoAccept false)")
+				loopTasks++ // session lost: Resubscribe is queued ahead of Retry
+			} else {
+				lab("LConnEnd (CoAccept true)")
+			}
 			lab("LPushResub")
 			lab("LPushRetry")
-			if !waitTasks(pushed+2, "loop did not push Retry on conn 1") {
+			if !waitTasks(pushed+loopTasks, "loop did not push its tasks on conn 1") {
 				return
+			}
+			if v.Flap {
+				b.mu.Lock()
+				cf := b.conns[len(b.conns)-1]
+				b.mu.Unlock()
+				cf.cut()
+				lab("LIdleCut")
+				if !wait(dialReq, "no redial after the flap") {
+					return
+				}
+				lab("LDetectEnd")
+				lab("LBackoff")
+				dialGo <- struct{}{}
+				lab("LDial true")
+				lab("LSetClient")
+				lab("LConnBegin")
+				if !connectAccept(true, "conn 2") {
+					return
+				}
+				lab("LConnEnd (CoAccept true)")
+				lab("LPushResub")
+				lab("LPushRetry")
+				loopTasks++
+				gen = 3
+				if !waitTasks(pushed+loopTasks, "loop did not push Retry on conn 2") {
+					return
+				}
 			}
 			for _, op := range v.After {
 				submit(op)
@@ -369,8 +430,8 @@ func rsRunFine(v *rsFineVariant) (rsObs, string) {
 			if v.Held.QoS == 0 {
 				lab("LTask") // notices the switch
 			}
-			lab("LObserve 2%nat")
-			for i := 0; i < len(v.Before)+len(v.After)+1; i++ {
+			lab(fmt.Sprintf("LObserve %d%%nat", gen))
+			for i := 0; i < len(v.Before)+len(v.After)+loopTasks-1; i++ {
 				lab("LTask")
 			}
 			// one more connection: whatever is still waiting for retransmission goes out now
@@ -388,17 +449,17 @@ func rsRunFine(v *rsFineVariant) (rsObs, string) {
 			lab("LDial true")
 			lab("LSetClient")
 			lab("LConnBegin")
-			if !connectAccept(true, "conn 2") {
+			if !connectAccept(true, "last conn") {
 				return
 			}
 			lab("LConnEnd (CoAccept true)")
 			lab("LPushResub")
 			lab("LPushRetry")
-			if !waitTasks(pushed+3, "loop did not push Retry on conn 2") || !barrier("conn 2") {
+			if !waitTasks(pushed+loopTasks+1, "loop did not push Retry on the last connection") || !barrier("last conn") {
 				return
 			}
 			lab("LTask") // notices the switch
-			lab("LObserve 3%nat")
+			lab(fmt.Sprintf("LObserve %d%%nat", gen+1))
 			lab("LTask")
 			return
 		}
@@ -508,6 +569,20 @@ func rsFineVariants() []*rsFineVariant {
 	out = append(out, &rsFineVariant{Held: rsP(1, 1), Before: []rsOp{p3(2, 1), p3(3, 1)}, After: []rsOp{p3(4, 1)}, LateRelease: true, Note: "slow OnError of a failed request while the client reconnects; younger requests wait behind it"})
 	out = append(out, &rsFineVariant{Held: rsP(1, 2), Before: []rsOp{p3(2, 1)}, After: []rsOp{p3(3, 2), p3(4, 0)}, LateRelease: true, MethodB: true, Note: "slow OnError of a failed QoS 2 request while the client reconnects"})
 	out = append(out, &rsFineVariant{Held: rsP(1, 0), Before: []rsOp{p3(2, 1), p3(3, 1)}, After: []rsOp{p3(4, 1)}, LateRelease: true, Note: "slow OnError of a failed QoS 0 request while the client reconnects"})
+	// the same while the network flaps: the connection made meanwhile loses the session (re-subscription queued) and
+	// is cut at once; the next keeps the session: the queued re-subscription is still carried out
+	sA := func(u int, f string, q byte) rsOp { return rsS(u, rsSub{f, q}) }
+	out = append(out, &rsFineVariant{Pre: []rsOp{sA(1, "a", 1), sA(2, "b", 2)}, Held: rsP(3, 1), Before: []rsOp{sA(4, "x", 0)}, LateRelease: true, Flap: true,
+		Note: "slow OnError while the network flaps: session lost on the connection in between, kept on the next"})
+	out = append(out, &rsFineVariant{Pre: []rsOp{sA(1, "a", 2)}, Held: rsP(2, 0), After: []rsOp{p3(3, 1)}, LateRelease: true, Flap: true, MethodB: true,
+		Note: "slow OnError (QoS 0 request) while the network flaps"})
+	// a request abandoned by the response timeout whose OnError is slow while the peer cuts and the client reconnects:
+	// the connection closed afterwards is the one the request ran on, not the new one
+	for _, q := range []byte{1, 2} {
+		out = append(out, &rsFineVariant{Held: rsP(1, q), Before: []rsOp{p3(2, 1)}, After: []rsOp{p3(3, 1)}, LateRelease: true, HeldLive: true,
+			Faults: []rsFault{{0, 0, fSilentAck}}, MethodB: q == 2,
+			Note: "response timeout reported by a slow OnError while the peer cuts and the client reconnects"})
+	}
 	// pinned inside a Retry pass (OnError of a deferred request whose write was cut) while the loop has already
 	// installed and initialised the next client: the rest of the pass still belongs to the old connection
 	for _, q := range []byte{1, 2} {
@@ -525,6 +600,8 @@ func rsFineFamily(cf *casesFile, m *meta) int { return rsFineFamilyPred(cf, m, "
 
 func rsFineFamilyC03(cf *casesFile, m *meta) int { return rsFineFamilyPred(cf, m, "lc03_ok") }
 
+func rsFineFamilyC08(cf *casesFile, m *meta) int { return rsFineFamilyPred(cf, m, "lc08_ok") }
+
 func rsFineFamilyPred(cf *casesFile, m *meta, pred string) int {
 	vs := rsFineVariants()
 	var items []string
@@ -534,7 +611,7 @@ func rsFineFamilyPred(cf *casesFile, m *meta, pred string) int {
 		for _, f := range v.Faults {
 			fs = append(fs, fmt.Sprintf("(%d%%nat,%d%%nat,%s)", f.Conn, f.Idx, rsFaultName[f.Kind]))
 		}
-		sc := fmt.Sprintf("{| ls_cfg := {| c_method_b := %s; c_always_resub := false; c_timeout := false |}; ls_faults := %s; ls_labels := %s |}", cBool(v.MethodB), cListInline(fs), labels)
+		sc := fmt.Sprintf("{| ls_cfg := {| c_method_b := %s; c_always_resub := false; c_timeout := %s |}; ls_faults := %s; ls_labels := %s |}", cBool(v.MethodB), cBool(v.HeldLive), cListInline(fs), labels)
 		items = append(items, cTuple(sc, obs.coq()))
 		m.Families["fine"] = append(m.Families["fine"], map[string]interface{}{"schedule": v.describe(), "observed": obs.describe()})
 	}
